@@ -345,8 +345,17 @@ func c04RandomRun(rec *vu.Recorder, rng *rand.Rand, steps int) {
 					informed[p] = b
 					rej = append(rej, w.exec(c04Op{Op: "podSet", Pod: p, Bound: b})...) // informer catches up (or a stale update first)
 				}
-			} else {
+			} else if k == 9 {
 				rej = w.exec(c04Op{Op: "unreserve", Pod: p})
+			} else {
+				// the bind was persisted but the call returned an error: the informer reports the pod bound,
+				// then the scheduler rolls it back
+				informed[p] = true
+				rej = w.exec(c04Op{Op: "podSet", Pod: p, Bound: true})
+				w.rollback(rej)
+				w.assumed[p] = true
+				rej = w.exec(c04Op{Op: "unreserve", Pod: p})
+				delete(w.assumed, p)
 			}
 		default: // pending
 			if k < 10 {
